@@ -1466,9 +1466,13 @@ package engine
 //@   ensures[a-failed-assert-changes-no-procedure] result != nil ==> forall q procedureIndicator :: has(vm.procedures, q) == old(has(vm.procedures, q))
 
 //@ func clauses.call$1
-//@   property C09
+//@   property C03 C09
 //@   nosafety
 //@   captures-copy c clause
+//@   loop 1 invariant true
+//@   at-call (*VM).exec requires[runs-its-own-copy-of-the-clause] a0 == vm && a1 == c.bytecode
+//@   at-call (*VM).exec requires[in-the-call-s-environment-with-the-call-s-continuation-and-arguments] a3 == k && a4 == args && a6 == env
+//@   at-call (*VM).exec requires[cut-is-local-to-the-predicate-the-cut-parent-is-the-call-s-own-promise] a7 == p
 
 //@ func clauses.call
 //@   property C03
